@@ -8,7 +8,9 @@
    trial that spawned it together with the number of turnovers applied to it. *)
 From NeatModel Require Import Res.
 
-Inductive outcome := Unsolved | Solved | EvalError | Cancel | CancelSolved.
+(* SolvedError: the evaluator marks the generation solved and returns an error; CancelError: it cancels the
+   context and returns an error.  Execute tests the error first, so both end the run like EvalError. *)
+Inductive outcome := Unsolved | Solved | EvalError | Cancel | CancelSolved | SolvedError | CancelError.
 
 Inductive event :=
 | ESpawn (t : Z)                      (* genetics.NewPopulation for trial t *)
@@ -42,7 +44,7 @@ Fixpoint gen_loop (obs : bool) (t g n turns : Z) (cancelled : bool) (os : list o
     else
       let ev_eval := EEval t g t turns in
       match o with
-      | EvalError =>
+      | EvalError | SolvedError | CancelError =>
         {| g_ev := [ev_eval]; g_abort := Some ErrEval; g_cancelled := cancelled; g_n := n; g_turns := turns |}
       | _ =>
         let cancelled' := cancelled || is_cancel o in
@@ -96,7 +98,8 @@ Definition enc_status (s : status) : Z :=
   match s with Done => 0 | ErrEval => 1 | ErrCtx => 2 end.
 
 Definition outcome_of_Z (z : Z) : outcome :=
-  match z with 1 => Solved | 2 => EvalError | 3 => Cancel | 4 => CancelSolved | _ => Unsolved end.
+  match z with 1 => Solved | 2 => EvalError | 3 => Cancel | 4 => CancelSolved | 5 => SolvedError | 6 => CancelError
+  | _ => Unsolved end.
 
 (* The implementation cannot be observed calling NewPopulation or NextEpoch directly (both
    are created inside Execute); their effect is visible in the identity and turnover count
